@@ -72,6 +72,15 @@ Lemma search_last l id p x k y :
   search l id = Some (p, x) -> nth_error l k = Some y -> n_id y = id -> k <= p.
 Proof. intros H Hk Hy. exact (search_aux_last _ _ _ _ _ _ H _ _ Hk Hy). Qed.
 
+Lemma search_spec l id p x :
+  search l id = Some (p, x) ->
+  nth_error l p = Some x /\ n_id x = id /\
+  forall k y, nth_error l k = Some y -> n_id y = id -> k <= p.
+Proof.
+  intros H. destruct (search_sound l id p x H) as [H1 H2]. split; [exact H1|]. split; [exact H2|].
+  intros k y. apply (search_last l id p x k y H).
+Qed.
+
 (* ------------------------------------------------------------- verify -- *)
 
 (* the condition the property asks of a delivered (node, message) pair *)
@@ -239,11 +248,11 @@ Proof.
   destruct k; destruct st0; intros H; injection H as <- _; exact H0.
 Qed.
 
-Lemma step_ok P f ns me r q m q' ds st :
-  qall P q -> P m -> step f ns me r q m = (q', (ds, st)) ->
+Lemma step_core_ok P f ns me r q m q' ds st :
+  qall P q -> P m -> step_core f ns me r q m = (q', (ds, st)) ->
   qall P q' /\ Forall (deliv_ok P ns) ds.
 Proof.
-  intros Hq Hm. unfold step.
+  intros Hq Hm. unfold step_core.
   destruct (aggregate me (agg_flag r (p_type m)) q m) as [q1 a] eqn:Ea.
   destruct (aggregate_inv P _ _ _ _ _ _ Hq Hm Ea) as [Hq1 Hb].
   destruct a as [l| |].
@@ -256,42 +265,49 @@ Qed.
 
 (* ------------------------------------------------------------ histories -- *)
 
+Lemma step_ok P f2 f3 ns me r q m q' ds st :
+  qall P q -> P m -> step f2 f3 ns me r q m = (q', (ds, st)) ->
+  qall P q' /\ Forall (deliv_ok P ns) ds.
+Proof.
+  intros Hq Hm. unfold step. destruct (f3 && is_none (p_from m)).
+  - intros H. injection H as <- <- _. split; [exact Hq|constructor].
+  - apply step_core_ok; assumption.
+Qed.
+
 Lemma sall_sset P s i q : sall P s -> qall P q -> sall P (sset s i q).
 Proof. intros Hs Hq j. rewrite sget_sset. destruct (j =? i); [exact Hq|apply Hs]. Qed.
 
 Lemma step_inj_ok P f c s x s' res :
   sall P s ->
-  (forall m, process (fix_f03 f) (i_env x) (i_wire x) = Some m -> P m) ->
+  P (process (i_env x) (i_wire x)) ->
   step_inj f c s x = (s', res) ->
   sall P s' /\ Forall (deliv_ok P (nodes (c_tree c))) (deliveries_of res).
 Proof.
   intros Hs Hp. unfold step_inj.
   destruct (nth_error (c_insts c) (i_inst x)) as [toid|];
     [|intros H; injection H as <- <-; split; [exact Hs|constructor]].
-  destruct (process (fix_f03 f) (i_env x) (i_wire x)) as [m|] eqn:Epr;
-    [|intros H; injection H as <- <-; split; [exact Hs|constructor]].
   destruct (search (nodes (c_tree c)) toid) as [[mepos me]|];
     [|intros H; injection H as <- <-; split; [exact Hs|constructor]].
-  destruct (step (fix_f02 f) (nodes (c_tree c)) me (c_regs c) (sget s (i_inst x)) m)
-    as [q' [ds st]] eqn:Est.
+  destruct (step (fix_f02 f) (fix_f03 f) (nodes (c_tree c)) me (c_regs c) (sget s (i_inst x))
+              (process (i_env x) (i_wire x))) as [q' [ds st]] eqn:Est.
   intros H. injection H as <- <-.
-  destruct (step_ok P _ _ _ _ _ _ _ _ _ (Hs (i_inst x)) (Hp m eq_refl) Est) as [Hq' Hds].
+  destruct (step_ok P _ _ _ _ _ _ _ _ _ _ (Hs (i_inst x)) Hp Est) as [Hq' Hds].
   split; [apply sall_sset; assumption|exact Hds].
 Qed.
 
 Lemma run_from_ok P f c : forall l s,
   sall P s ->
-  (forall x m, In x l -> process (fix_f03 f) (i_env x) (i_wire x) = Some m -> P m) ->
+  (forall x, In x l -> P (process (i_env x) (i_wire x))) ->
   Forall (deliv_ok P (nodes (c_tree c))) (all_deliveries (run_from f c s l)).
 Proof.
   induction l as [|x r IH]; intros s Hs Hp; cbn [run_from].
   - constructor.
   - destruct (step_inj f c s x) as [s' res] eqn:Est.
-    destruct (step_inj_ok P f c s x s' res Hs (fun m => Hp x m (or_introl eq_refl)) Est) as [Hs' Hd].
+    destruct (step_inj_ok P f c s x s' res Hs (Hp x (or_introl eq_refl)) Est) as [Hs' Hd].
     destruct (is_crash res).
     + unfold all_deliveries. cbn [flat_map]. rewrite app_nil_r. exact Hd.
     + unfold all_deliveries. cbn [flat_map]. apply Forall_app. split; [exact Hd|].
-      apply IH; [exact Hs'|]. intros y m Hy. apply Hp. now right.
+      apply IH; [exact Hs'|]. intros y Hy. apply Hp. now right.
 Qed.
 
 (* where a message came from: one of the injected ones, carrying the peer
@@ -300,12 +316,8 @@ Definition origin (l : list inj) (m : pmsg) : Prop :=
   exists x, In x l /\ p_from m = w_from (i_wire x) /\ p_peer m = i_env x /\
             p_type m = w_type (i_wire x) /\ p_payload m = w_payload (i_wire x).
 
-Lemma process_origin f l x m :
-  In x l -> process f (i_env x) (i_wire x) = Some m -> origin l m.
-Proof.
-  intros Hx. unfold process. destruct (f && is_none (w_from (i_wire x))); [discriminate|].
-  intros H. injection H as <-. exists x. cbn. auto.
-Qed.
+Lemma process_origin l x : In x l -> origin l (process (i_env x) (i_wire x)).
+Proof. intros Hx. exists x. cbn. auto. Qed.
 
 (* C02, first sentence, for every history, every tree, every registration and
    BOTH variants of the code *)
@@ -314,8 +326,7 @@ Theorem authentic_delivery f c l d pos m :
   authentic (nodes (c_tree c)) pos m /\ origin l m.
 Proof.
   intros Hd He.
-  pose proof (run_from_ok (origin l) f c l [] (sall_nil _)
-                (fun x m Hx => process_origin _ l x m Hx)) as H.
+  pose proof (run_from_ok (origin l) f c l [] (sall_nil _) (process_origin l)) as H.
   rewrite Forall_forall in H. specialize (H d Hd). unfold deliv_ok in H.
   rewrite Forall_forall in H. specialize (H _ He). cbn in H. tauto.
 Qed.
@@ -435,8 +446,10 @@ Proof.
   intros Hc. set (ns := nodes (c_tree c)).
   set (P := fun m : pmsg => fix_f02 f = true \/ known_sender ns m).
   assert (Hstep : forall me r q m q' ds st, qall P q -> P m ->
-            step (fix_f02 f) ns me r q m = (q', (ds, st)) -> qall P q' /\ Forall no_zero ds).
-  { intros me r q m q' ds st Hq Hm. unfold step.
+            step (fix_f02 f) (fix_f03 f) ns me r q m = (q', (ds, st)) -> qall P q' /\ Forall no_zero ds).
+  { intros me r q m q' ds st Hq Hm. unfold step. destruct (fix_f03 f && is_none (p_from m)).
+    { intros H. injection H as <- <- _. split; [exact Hq|constructor]. }
+    unfold step_core.
     destruct (aggregate me (agg_flag r (p_type m)) q m) as [q1 a] eqn:Ea.
     destruct (aggregate_inv P _ _ _ _ _ _ Hq Hm Ea) as [Hq1 Hb].
     destruct a as [b| |].
@@ -456,16 +469,14 @@ Proof.
     { revert Est. unfold step_inj.
       destruct (nth_error (c_insts c) (i_inst x)) as [toid|];
         [|intros H; injection H as <- <-; split; [exact Hs|constructor]].
-      fold ns. destruct (process (fix_f03 f) (i_env x) (i_wire x)) as [m|] eqn:Epr;
+      fold ns. destruct (search ns toid) as [[mepos me]|];
         [|intros H; injection H as <- <-; split; [exact Hs|constructor]].
-      destruct (search ns toid) as [[mepos me]|];
-        [|intros H; injection H as <- <-; split; [exact Hs|constructor]].
-      destruct (step (fix_f02 f) ns me (c_regs c) (sget s (i_inst x)) m) as [q' [ds st]] eqn:Es.
+      destruct (step (fix_f02 f) (fix_f03 f) ns me (c_regs c) (sget s (i_inst x))
+                  (process (i_env x) (i_wire x))) as [q' [ds st]] eqn:Es.
       intros H. injection H as <- <-.
-      assert (Pm : P m).
+      assert (Pm : P (process (i_env x) (i_wire x))).
       { unfold P. destruct Hc as [Hc|Hc]; [now left|right]. intros id Hid.
-        revert Epr. unfold process. destruct (fix_f03 f && is_none (w_from (i_wire x))); [discriminate|].
-        intros H. injection H as <-. cbn in Hid. exact (Hc x (Hsub x (or_introl eq_refl)) id Hid). }
+        cbn in Hid. exact (Hc x (Hsub x (or_introl eq_refl)) id Hid). }
       destruct (Hstep _ _ _ _ _ _ _ (Hs (i_inst x)) Pm Es) as [Hq' Hds].
       split; [apply sall_sset; assumption|exact Hds]. }
     destruct Hres as [Hs' Hd]. destruct (is_crash res).
@@ -545,11 +556,11 @@ Qed.
 
 Definition has_sender (m : pmsg) : Prop := p_from m <> None.
 
-Lemma step_nocrash f ns me r q m q' ds st :
-  qall has_sender q -> has_sender m -> step f ns me r q m = (q', (ds, st)) ->
+Lemma step_core_nocrash f ns me r q m q' ds st :
+  qall has_sender q -> has_sender m -> step_core f ns me r q m = (q', (ds, st)) ->
   qall has_sender q' /\ st <> SCrash /\ st <> SRecovered.
 Proof.
-  intros Hq Hm. unfold step.
+  intros Hq Hm. unfold step_core.
   destruct (aggregate me (agg_flag r (p_type m)) q m) as [q1 a] eqn:Ea.
   destruct (aggregate_inv has_sender _ _ _ _ _ _ Hq Hm Ea) as [Hq1 Hb].
   destruct a as [b| |].
@@ -563,18 +574,24 @@ Proof.
     all: repeat match goal with |- context [if ?c then _ else _] => destruct c end; discriminate.
 Qed.
 
+(* the queues only ever hold messages with a sender token when either the guard
+   of the repaired code is on or every injected message has one *)
+Lemma step_nocrash f2 f3 ns me r q m q' ds st :
+  qall has_sender q -> (f3 = true \/ has_sender m) -> step f2 f3 ns me r q m = (q', (ds, st)) ->
+  qall has_sender q' /\ st <> SCrash /\ st <> SRecovered.
+Proof.
+  intros Hq Hm. unfold step. destruct (f3 && is_none (p_from m)) eqn:Eg.
+  - intros H. injection H as <- _ <-. split; [exact Hq|split; discriminate].
+  - apply step_core_nocrash; [exact Hq|]. destruct Hm as [-> |Hm]; [|exact Hm].
+    cbn in Eg. unfold has_sender. destruct (p_from m); [discriminate|discriminate].
+Qed.
+
 Theorem no_crash f c l :
   (fix_f03 f = true \/ forall x, In x l -> w_from (i_wire x) <> None) ->
   crashed (run f c l) = false /\
-  forall r, In r (run f c l) -> r <> RStep [] SRecovered /\ forall ds, r <> RStep ds SRecovered.
+  forall r, In r (run f c l) -> forall ds, r <> RStep ds SRecovered.
 Proof.
   intros Hc.
-  assert (Hproc : forall x m, In x l -> process (fix_f03 f) (i_env x) (i_wire x) = Some m -> has_sender m).
-  { intros x m Hx. unfold process, has_sender.
-    destruct (fix_f03 f) eqn:Ef; cbn [andb].
-    - destruct (w_from (i_wire x)) eqn:Ew; cbn [is_none]; [|discriminate].
-      intros H. injection H as <-. cbn. congruence.
-    - intros H. injection H as <-. cbn. destruct Hc as [Hc|Hc]; [discriminate|]. exact (Hc x Hx). }
   assert (Hrun : forall l0 s, (forall x, In x l0 -> In x l) -> sall has_sender s ->
             forall r, In r (run_from f c s l0) -> is_crash r = false /\ forall ds, r <> RStep ds SRecovered).
   { induction l0 as [|x r0 IH]; intros s Hsub Hs r; cbn [run_from]; [intros []|].
@@ -583,14 +600,15 @@ Proof.
     { revert Est. unfold step_inj.
       destruct (nth_error (c_insts c) (i_inst x)) as [toid|];
         [|intros H; injection H as <- <-; split; [exact Hs|split; [reflexivity|discriminate]]].
-      destruct (process (fix_f03 f) (i_env x) (i_wire x)) as [m|] eqn:Epr;
-        [|intros H; injection H as <- <-; split; [exact Hs|split; [reflexivity|discriminate]]].
       destruct (search (nodes (c_tree c)) toid) as [[mepos me]|];
         [|intros H; injection H as <- <-; split; [exact Hs|split; [reflexivity|discriminate]]].
-      destruct (step (fix_f02 f) (nodes (c_tree c)) me (c_regs c) (sget s (i_inst x)) m) as [q' [ds st]] eqn:Es.
+      destruct (step (fix_f02 f) (fix_f03 f) (nodes (c_tree c)) me (c_regs c) (sget s (i_inst x))
+                  (process (i_env x) (i_wire x))) as [q' [ds st]] eqn:Es.
       intros H. injection H as <- <-.
-      destruct (step_nocrash _ _ _ _ _ _ _ _ _ (Hs (i_inst x)) (Hproc x m (Hsub x (or_introl eq_refl)) Epr) Es)
-        as (Hq' & Hst1 & Hst2).
+      assert (Hm : fix_f03 f = true \/ has_sender (process (i_env x) (i_wire x))).
+      { destruct Hc as [Hc|Hc]; [now left|right]. unfold has_sender. cbn.
+        exact (Hc x (Hsub x (or_introl eq_refl))). }
+      destruct (step_nocrash _ _ _ _ _ _ _ _ _ _ (Hs (i_inst x)) Hm Es) as (Hq' & Hst1 & Hst2).
       split; [apply sall_sset; assumption|]. split; [destruct st; try reflexivity; congruence|].
       intros ds0 H. injection H as _ ->. congruence. }
     destruct Hres as (Hs' & Hnc & Hnr). rewrite Hnc. intros [<-|Hin]; [auto|].
@@ -599,7 +617,7 @@ Proof.
   - unfold crashed. destruct (existsb is_crash (run f c l)) eqn:E; [|reflexivity].
     apply existsb_exists in E as (r & Hr & Hcr).
     destruct (Hrun l [] (fun x H => H) (sall_nil _) r Hr) as [H _]. congruence.
-  - intros r Hr. destruct (Hrun l [] (fun x H => H) (sall_nil _) r Hr) as [_ H]. split; [apply H|exact H].
+  - intros r Hr. destruct (Hrun l [] (fun x H => H) (sall_nil _) r Hr) as [_ H]. exact H.
 Qed.
 
 (* ---------------------------------------- what a valid message achieves -- *)
@@ -607,14 +625,17 @@ Qed.
 (* a single message of a non-aggregated registered type from a valid sender is
    handed over at once, alone and unchanged (so the theorems above are not
    satisfied by a model that rejects everything) *)
-Theorem valid_single_delivered f ns me r q m id pos x k :
+Lemma guard_off f3 m id : p_from m = Some id -> f3 && is_none (p_from m) = false.
+Proof. intros ->. cbn. apply andb_false_r. Qed.
+
+Theorem valid_single_delivered f f3 ns me r q m id pos x k :
   p_from m = Some id -> search ns id = Some (pos, x) ->
   (p_peer m = PNone \/ p_peer m = PKey (n_srv x)) ->
   lookup r (p_type m) = Some (k, false) ->
-  step f ns me r q m =
+  step f f3 ns me r q m =
     (q, ([{| d_type := p_type m; d_kind := k; d_agg := false; d_batch := [EMsg pos m] |}], SOk)).
 Proof.
-  intros Hf Hs Hp Hl. unfold step, agg_flag. rewrite Hl.
+  intros Hf Hs Hp Hl. unfold step. rewrite (guard_off f3 m id Hf). unfold step_core, agg_flag. rewrite Hl.
   assert (Ha : aggregate me false q m = (q, ABatch [m])).
   { unfold aggregate. rewrite Hf. destruct (n_par me) as [pid|].
     - cbn. now rewrite orb_true_r.
@@ -625,19 +646,19 @@ Qed.
 
 (* local injection (no envelope identity): delivered iff the claimed node exists;
    no authentication is claimed for this entry point *)
-Theorem local_injection f ns me r q m id k :
+Theorem local_injection f f3 ns me r q m id k :
   p_peer m = PNone -> p_from m = Some id -> lookup r (p_type m) = Some (k, false) ->
   (forall pos x, search ns id = Some (pos, x) ->
-     step f ns me r q m =
+     step f f3 ns me r q m =
        (q, ([{| d_type := p_type m; d_kind := k; d_agg := false; d_batch := [EMsg pos m] |}], SOk))) /\
   (search ns id = None ->
-     step f ns me r q m =
+     step f f3 ns me r q m =
        (q, if f then ([], SErr)
            else ([{| d_type := p_type m; d_kind := k; d_agg := false; d_batch := [EZero] |}], SOk))).
 Proof.
   intros Hp Hf Hl. split.
   - intros pos x Hs. eapply valid_single_delivered; eauto.
-  - intros Hs. unfold step, agg_flag. rewrite Hl.
+  - intros Hs. unfold step. rewrite (guard_off f3 m id Hf). unfold step_core, agg_flag. rewrite Hl.
     assert (Ha : aggregate me false q m = (q, ABatch [m])).
     { unfold aggregate. rewrite Hf. destruct (n_par me) as [pid|].
       - cbn. now rewrite orb_true_r.
@@ -648,12 +669,12 @@ Qed.
 
 (* a network-borne message from a member that claims to be ANOTHER member is
    refused by every variant of the code *)
-Theorem spoof_rejected f ns me r q m id pos x k0 k agg :
+Theorem spoof_rejected f f3 ns me r q m id pos x k0 k agg :
   p_from m = Some id -> search ns id = Some (pos, x) -> p_peer m = PKey k0 -> k0 <> n_srv x ->
   lookup r (p_type m) = Some (k, agg) -> agg = false ->
-  step f ns me r q m = (q, ([], SErr)).
+  step f f3 ns me r q m = (q, ([], SErr)).
 Proof.
-  intros Hf Hs Hp Hne Hl ->. unfold step, agg_flag. rewrite Hl.
+  intros Hf Hs Hp Hne Hl ->. unfold step. rewrite (guard_off f3 m id Hf). unfold step_core, agg_flag. rewrite Hl.
   assert (Ha : aggregate me false q m = (q, ABatch [m])).
   { unfold aggregate. rewrite Hf. destruct (n_par me) as [pid|].
     - cbn. now rewrite orb_true_r.
@@ -666,9 +687,9 @@ Qed.
 
 (* the ServerIdentity field inside the wire message and the tree named by the
    sender token are never read *)
-Theorem wire_identity_ignored f env w si ot :
-  process f env {| w_from := w_from w; w_from_other_tree := ot; w_si := si;
-                   w_type := w_type w; w_payload := w_payload w |} = process f env w.
+Theorem wire_identity_ignored env w si ot :
+  process env {| w_from := w_from w; w_from_other_tree := ot; w_si := si;
+                 w_type := w_type w; w_payload := w_payload w |} = process env w.
 Proof. reflexivity. Qed.
 
 Definition same_content (a b : inj) : Prop :=
@@ -725,7 +746,7 @@ Example repaired_on_witnesses :
   let mk from := [{| i_inst := 0; i_env := PKey 1;
              i_wire := {| w_from := from; w_from_other_tree := false; w_si := None;
                           w_type := 1; w_payload := 42 |} |}] in
-  run repaired c (mk (Some 7)) = [RStep [] SErr] /\ run repaired c (mk None) = [RStep [] SRefused].
+  run repaired c (mk (Some 7)) = [RStep [] SErr] /\ run repaired c (mk None) = [RStep [] SErr].
 Proof. split; reflexivity. Qed.
 
 (* the hypotheses of the theorems are satisfiable: a legitimate message from
